@@ -178,6 +178,36 @@ def case_running_max(rep):
     return fn
 
 
+def case_generate_x0(rep):
+    """A step consumed directly through its generator, with a start field that is another container than the items' own: every
+    substep still starts from the previous converged state (trace clause `continuation`)."""
+    def fn(run):
+        import felupe as fem
+        rng = rng_for(run.seed, "C15", "generate-x0", rep)
+        mon = SolverMonitor(run).attach()
+        try:
+            fam = ["hexahedron", "quad", "tetra"][rep % 3]
+            mesh, L = problems.box_mesh(fam, rng)
+            field = problems.field_for(fam, mesh, "3d" if mesh.dim == 3 else "planestrain")
+            body = fem.SolidBody(fem.NeoHooke(mu=1.0, bulk=float(rng.uniform(2, 6))), field)
+            x0 = field.copy()
+            b, lc = fem.dof.uniaxial(x0, clamped=True)
+            n = int(rng.integers(3, 6))
+            move = np.cumsum(rng.uniform(0.03, 0.08, n)) * L[0]
+            step = fem.Step([body], ramp={b["move"]: move}, boundaries=b)
+            k = 0
+            for res in step.generate(x0=x0, verbose=False, tol=1e-9):
+                got = np.asarray(res.x[0].values)[b["move"].points, 0]
+                run.compare("trace", "trace clause=generate-x0-carries-ramp-value", float(np.max(np.abs(got - move[k]))), 1e-13,
+                            "Step.generate(x0=...): a converged substep does not carry its ramp value", unit="trace:generate-x0")
+                k += 1
+            check_trace(run, mon.trace, "Step.generate(x0=other container), %s" % fam)
+            run.units["trace:generate-with-distinct-x0"] += 1
+        finally:
+            attach.detach_all()
+    return fn
+
+
 def case_purity(rep):
     """Trial evaluations are pure in the committed state: gradient and hessian calls (in any order, at any trial state) leave
     the committed state array untouched and give the same answer again."""
@@ -371,6 +401,8 @@ def cases(tier, seed):
         out.append(("path:%d" % rep, case_path_independence(rep)))
     for rep in range(1 if tier == "quick" else 4):
         out.append(("purity:%d" % rep, case_purity(rep)))
+    for rep in range(3 if tier == "quick" else 9):
+        out.append(("generate-x0:%d" % rep, case_generate_x0(rep)))
     return out
 
 
@@ -379,7 +411,7 @@ SPEC = {
                        "trace:commit-only-on-success", "trace:failure-no-commit", "trace:all-substeps", "trace:callback-per-yield",
                        "trace:injected-failure-position", "success:commit", "path-independence", "or:running-max:hand", "or:running-max:ad",
                        "or:running-max:tensortrax", "or:primary:hand", "or:primary:tensortrax", "or:reload:hand", "or:reload:tensortrax",
-                       "plasticity:yield", "plasticity:monotone", "plasticity:plastic-steps", "trace:state-carries-ramp-value",
+                       "plasticity:yield", "plasticity:monotone", "plasticity:plastic-steps", "trace:state-carries-ramp-value", "trace:generate-with-distinct-x0",
                        "purity:committed-state-untouched:OgdenRoxburgh", "purity:committed-state-untouched:Plasticity", "purity:repeatable:tt.finite_strain_viscoelastic"],
     "rule": ("random load histories on small solids (hex8, tet4, quad4/8 plane strain, axisymmetric, nearly-incompressible, mixed): 1..3 "
              "steps of 1..5 substeps, monotone/cyclic/repeated/random ramps of 1..3 items (boundary, pressure, point load, body force), "
